@@ -23,8 +23,9 @@ CanonTcb == <<"c1", "c2", "c3", "c4", "c5", "c6", "c7", "c8", "c9", "c10", "c11"
 \*   badLen    octet string one byte short or long;  badType  INTEGER where OCTET STRING is expected and vice versa
 \*   nested    an octet string of the wrong size whose content is itself the DER of a right-sized octet string
 \*   trailing  bytes after the value inside the element
-Classes == {"ok", "tooBig", "negative", "badLen", "badType", "nested", "trailing"}
-Fits(cls) == cls = "ok"
+\*   derLike   an octet string of the right size whose bytes read as the complete DER of a shorter octet string (04 <size-2> ...): a value like any other
+Classes == {"ok", "tooBig", "negative", "badLen", "badType", "nested", "trailing", "derLike"}
+Fits(cls) == cls \in {"ok", "derLike"}
 
 \* structural faults of the whole extension
 Structs == {"none", "absent", "truncated", "trailingTop", "trailingTcb", "tcbNotSeq", "tcb17", "tcb19"}
@@ -61,6 +62,7 @@ WellFormedCase(c) ==
   /\ (c.cls \in {"tooBig", "negative"} => c.target \in {"c1", "c2", "c16", "pcesvn"})
   /\ (c.cls = "badLen" => c.target \in {"ppid", "pceid", "fmspc", "cpusvn"})
   /\ (c.cls = "nested" => c.target \in {"ppid", "pceid", "fmspc"})
+  /\ (c.cls = "derLike" => c.target \in {"ppid", "pceid", "fmspc", "cpusvn"})
   /\ (c.target = "tcb" => c.dev \in {"none", "missing", "dupSame"})
   /\ (c.dev = "missingDup" => c.target \in {"c1", "c2", "c16", "pcesvn", "ppid", "fmspc"})
 
@@ -69,6 +71,7 @@ WellFormedCase(c) ==
 Expected(c) ==
   CASE c.struct # "none" -> "error"                 \* missing extension, malformed ASN.1, wrong element count, trailing bytes
     [] c.dev = "none" -> "values"
+    [] c.dev = "class" /\ c.cls = "derLike" -> "values"
     [] c.dev = "class" /\ c.cls = "trailing" -> "valuesOrError"   \* extra data after a correctly encoded value inside its element:
                                                     \* the value itself is intact; the statement only forbids a wrong value
     [] c.dev = "class" -> "error"                   \* does not fit / wrongly sized / wrong type
